@@ -11,7 +11,7 @@ PROP = dict(
     technique="differential monitor (applied vs inlined schedule) + invariant hook on earlier snapshots",
     rule="case = (generated schedule, sequence of (action, step, matching wells)); non-trivial: the application changed state n; "
          "distinct = hash(deck, applications)",
-    stages=[dict(id="gen", harness="c04_action", flavour="plain", cases={Q: 3000, T: 80000}, timeout={Q: 900, T: 7200})],
+    stages=[dict(id="gen", harness="c04_action", flavour="plain", cases={Q: 3000, T: 400000}, timeout={Q: 900, T: 7200})],
     min_nontrivial={Q: 800, T: 16000},
     coverage_floor=[("gen", "state_comparisons", {Q: 5000, T: 100000})],
     assumptions=["matched wells are inlined in the schedule well order (order of definition), the order WellMatcher::sort gives"],
